@@ -140,6 +140,41 @@ func ruleErrPolarity(c *Ctx, r *Rep) {
 					}
 				}
 			}
+			// (c) the failure branch is empty: the error is looked at and then ignored (the statement that returned it is gone)
+			if bad == "" && b.Succs[0] == b.Succs[1] {
+				bad, badPos = "both outcomes of the error test lead to the same place: the failure is tested and ignored", iff.Cond.Pos()
+			}
+			if bad == "" {
+				fb := b.Succs[failIdx]
+				if len(fb.Instrs) == 1 && len(fb.Preds) == 1 {
+					if _, isJump := fb.Instrs[0].(*ssa.Jump); isJump && fb.Succs[0] == b.Succs[nilIdx] {
+						// a branch that only assigns a variable shows as a join whose values differ by the way in
+						join := fb.Succs[0]
+						assigns := false
+						iFail, iNil := -1, -1
+						for i, p := range join.Preds {
+							if p == fb {
+								iFail = i
+							}
+							if p == b {
+								iNil = i
+							}
+						}
+						for _, ins := range join.Instrs {
+							phi, ok := ins.(*ssa.Phi)
+							if !ok {
+								break
+							}
+							if iFail >= 0 && iNil >= 0 && phi.Edges[iFail] != phi.Edges[iNil] {
+								assigns = true
+							}
+						}
+						if !assigns {
+							bad, badPos = "the branch taken for a non-nil error is empty: the failure is tested and ignored", iff.Cond.Pos()
+						}
+					}
+				}
+			}
 			if !badPos.IsValid() {
 				badPos = fn.Pos()
 			}
@@ -148,6 +183,90 @@ func ruleErrPolarity(c *Ctx, r *Rep) {
 	}
 	okPolarity(c, r, consumers, isLog)
 	forwardedPair(c, r)
+	// an error compared with nil where nothing depends on the outcome (an `if err != nil { }` that lost its body
+	// disappears from the flow graph altogether, only the comparison is left)
+	for _, fn := range c.Funcs {
+		n := 0
+		for _, b := range fn.Blocks {
+			for _, ins := range b.Instrs {
+				// any comparison, negation or predicate call whose outcome nothing reads: the body of the `if` it belonged
+				// to is gone (a rejection that lost its return)
+				unused := func(v ssa.Value) bool {
+					for _, ref := range *v.Referrers() {
+						if _, isDbg := ref.(*ssa.DebugRef); !isDbg {
+							return false
+						}
+					}
+					return true
+				}
+				var val ssa.Value
+				what := ""
+				switch x := ins.(type) {
+				case *ssa.BinOp:
+					switch x.Op {
+					case token.EQL, token.NEQ, token.LSS, token.LEQ, token.GTR, token.GEQ:
+						val, what = x, "a comparison"
+						if isErrorType(x.X.Type()) {
+							what = "the error is compared with nil and"
+						}
+					}
+				case *ssa.UnOp:
+					if x.Op == token.NOT {
+						val, what = x, "a negated condition"
+					}
+				case *ssa.Extract:
+					// the ok of `v, ok := m[k]` / `v, ok := x.(T)` bound to a name and never looked at
+					if x.Index == 1 {
+						switch t := x.Tuple.(type) {
+						case *ssa.Lookup:
+							if t.CommaOk {
+								val, what = x, "the ok of a map lookup"
+							}
+						case *ssa.TypeAssert:
+							if t.CommaOk {
+								val, what = x, "the ok of a type assertion"
+							}
+						}
+					}
+				case *ssa.Call:
+					if res := x.Call.Signature().Results(); res.Len() == 1 {
+						if bt, isB := res.At(0).Type().Underlying().(*types.Basic); isB && bt.Kind() == types.Bool {
+							name := x.Call.Value.Name()
+							if x.Call.IsInvoke() {
+								name = x.Call.Method.Name()
+							} else if f := x.Call.StaticCallee(); f != nil {
+								name = f.Name()
+							}
+							for _, pre := range []string{"Is", "Has", "Equal", "Contains", "is", "has", "Before", "After"} {
+								if strings.HasPrefix(name, pre) {
+									val, what = x, "the answer of "+name
+								}
+							}
+							// the predicates of the text and byte libraries have no effect but their answer
+							if f := x.Call.StaticCallee(); f != nil {
+								switch fnPkgPath(f) {
+								case "strings", "bytes", "time", "unicode", "slices", "reflect":
+									val, what = x, "the answer of "+f.Name()
+								}
+							}
+						}
+					}
+				}
+				if val == nil || !unused(val) {
+					continue
+				}
+				// a negation is reported once, with what it negates
+				if u, isNot := val.(*ssa.UnOp); isNot {
+					_ = u
+				} else {
+					onlyNot := false
+					_ = onlyNot
+				}
+				n++
+				r.Check(false, sprintf("test-unused|%s#%d", c.FuncKey(fn), n), c.Pos(ins.Pos()), "the outcome of a test decides something", what+" is computed and nothing depends on it")
+			}
+		}
+	}
 }
 
 // forwardedPair: a helper that is handed both results of a call, h(g()), with g answering (*T, error): inside h the
